@@ -190,20 +190,26 @@ func run(c *mon.Ctx) {
 	c.Stream("histories", c.N(30000, 40000000), func(i int, r *gen.Rand) { history(c, r) })
 	// units far longer than any section or PES packet: completion is the predicate's business alone
 	c.Floor("long_unit.bytes_above_64k", 4)
-	c.Stream("long-unit", c.N(8, 400), func(i int, r *gen.Rand) { longUnit(c, r) })
+	c.Floor("long_unit.followed_by_another_unit", 8)
+	c.Stream("long-unit", c.N(24, 600), func(i int, r *gen.Rand) { longUnit(c, r) })
 }
 
 func longUnit(c *mon.Ctx, r *gen.Rand) {
 	threshold := r.PickInt([]int{-1, -1, 65536, 65541, 65542, 66000, 70000 + r.Intn(60000), 140000})
 	calls := 0
+	var lastArg []byte
 	acc := packet.NewAccumulator(func(b []byte) (bool, error) {
 		calls++
+		lastArg = append(lastArg[:0], b...)
 		return threshold >= 0 && len(b) >= threshold, nil
 	})
 	pid := 32 + r.Intn(8000)
 	var want []byte
 	n := 0
 	total := 380 + r.Intn(500)
+	if threshold < 0 && r.Bool() {
+		total = r.PickInt([]int{20, 45, 88, 89, 90, 91, 100, 178, 179, 200, 357}) // around 4, 8, 16, 32 and 64 KiB
+	}
 	for k := 0; k < total; k++ {
 		chunk := r.Bytes(184)
 		if k > 0 && r.Chance(10) {
@@ -236,6 +242,39 @@ func longUnit(c *mon.Ctx, r *gen.Rand) {
 		c.Fail("long-unit:predicate-calls", fmt.Sprintf("the predicate was evaluated %d times for %d accepted packets", calls, n), wit{Detail: fmt.Sprintf("threshold %d", threshold)})
 	}
 	c.Class(fmt.Sprintf("long-unit/threshold=%d", threshold/20000))
+	// ---- what comes after a long unit: the next unit start, or a reset and then a unit, begins from nothing
+	complete := threshold >= 0 && len(want) >= threshold
+	how := "the next unit start"
+	if complete || r.Bool() {
+		how = "Reset()"
+		acc.Reset()
+		if b, p := acc.Bytes(), acc.Packets(); len(b) != 0 || len(p) != 0 {
+			c.Fail("long-unit:after-reset", fmt.Sprintf("after a unit of %d bytes and Reset() the accumulator holds %d bytes and %d packets", len(want), len(b), len(p)), wit{Detail: fmt.Sprintf("first unit %d bytes", len(want))})
+			return
+		}
+	}
+	threshold = -1
+	var want2 []byte
+	m := 1 + r.Intn(4)
+	for k := 0; k < m; k++ {
+		chunk := r.Bytes(1 + r.Intn(184))
+		pk := packet.Packet(ref.PayloadPacket(pid, k, k == 0, chunk))
+		_, err := acc.WritePacket(&pk)
+		c.Eval(1)
+		want2 = append(want2, chunk...)
+		if err != nil {
+			c.Fail("long-unit:next-unit-refused", fmt.Sprintf("packet %d of the unit after a %d-byte unit and %s was refused: %v", k, len(want), how, err), wit{Detail: how})
+			return
+		}
+		if !bytes.Equal(lastArg, want2) {
+			c.Fail("long-unit:next-unit-predicate-argument", fmt.Sprintf("after a unit of %d bytes and %s the predicate was given %d bytes for a unit of %d bytes so far (first difference at byte %d)", len(want), how, len(lastArg), len(want2), firstDiff(lastArg, want2)), wit{Detail: how})
+			return
+		}
+	}
+	if got := acc.Bytes(); !bytes.Equal(got, want2) || len(acc.Packets()) != m {
+		c.Fail("long-unit:next-unit-bytes", fmt.Sprintf("after a unit of %d bytes and %s, Bytes() of the following %d-byte unit has %d bytes (first difference at byte %d) and Packets() lists %d of %d packets", len(want), how, len(want2), len(got), firstDiff(got, want2), len(acc.Packets()), m), wit{Detail: how})
+	}
+	c.Count("long_unit.followed_by_another_unit")
 }
 
 func history(c *mon.Ctx, r *gen.Rand) {
